@@ -2,7 +2,8 @@
   Driver ops for C20 (one op = one replay worker over a list of entries):
 
     c20 tag=<i> mode=<plain|wplain|bisync> pol=<r|i|e> restore=<0|1> maxbulk=<n> ver5=<0|1>
-        now=<ms> pre=<.|db:hexkey:exp{,…}> fin=<.|db:hexkey{,…}> ents=<entry{;entry}>
+        now=<ms> pre=<.|db:hexkey:exp{,…}> [bad=<.|hexkey{,…}>] fin=<.|db:hexkey{,…}> ents=<entry{;entry}>
+        (bad: keys whose RESTORE the target answers with "Bad data format")
     entry = db/hexkey/otype/first/splited/canRestore/dumpSize/expireAt/idle/freq/hexdump/cmds
     cmds  = . | cmd{|cmd}     cmd = hexname{.hexarg}
 
@@ -70,6 +71,9 @@ def render : Req → String
   | .restore k ttl p opts rep =>
     " ".intercalate (["restore", Hex.encode k, Hex.encode (natToDec ttl), Hex.encode p] ++ opts.map Hex.encode ++
       (if rep then [Hex.encode sREPLACE] else []))
+  | .restoreBad k ttl p opts rep =>
+    " ".intercalate (["restore", Hex.encode k, Hex.encode (natToDec ttl), Hex.encode p] ++ opts.map Hex.encode ++
+      (if rep then [Hex.encode sREPLACE] else []))
   | .data c => " ".intercalate (ascii c.name :: c.args.map Hex.encode)
   | .raw c => " ".intercalate (ascii c.name :: c.args.map Hex.encode)
   | .select db => s!"select {Hex.encode (natToDec db)}"
@@ -102,7 +106,10 @@ def handle : List String → Option (List String)
       let pre ← list? pre1? "," (← kv toks "pre")
       let fin ← list? fin1? "," (← kv toks "fin")
       let ents ← list? entry? ";" (← kv toks "ents")
-      let t0 : Target := { cur := 0, now := cfg.now, ks := mkKS pre }
+      let bad ← match kv toks "bad" with
+        | some b => list? Hex.decode "," b
+        | none => some []
+      let t0 : Target := { cur := 0, now := cfg.now, ks := mkKS pre, bad := fun k => bad.contains k }
       let ls := runWorker (mode == "bisync") pol cfg 0 none t0 ents
       let tEnd := workerTarget t0 ls
       let body := (ls.zipIdx).flatMap (fun p =>
